@@ -41,6 +41,17 @@ pub struct SampleIndex {
 }
 
 impl SampleIndex {
+    /// Verification hook: an index over `num_values` values with a single sample, i.e. `range()` returns `0..num_values`.
+    #[cfg(simple_sds_verif)]
+    #[doc(hidden)]
+    pub fn verif_widest(num_values: usize) -> SampleIndex {
+        SampleIndex {
+            num_values,
+            divisor: usize::MAX,
+            samples: IntVector::with_len(1, 1, 0).unwrap(),
+        }
+    }
+
     /// Ratio of number of values to number of samples.
     pub const RATIO: usize = 8;
 
